@@ -25,7 +25,8 @@ W_LAWS = {"mku_l": 4, "mkw": 3, "set_laws": 10, "set_applies": 10}
 PROFILES = {
     "C01": dict(W_STRUCT),
     "C02": dict(W_MEMB),
-    "C19": dict(W_LAWS),
+    # laws are (re)assigned on universes that have members, nested universes and themselves among them
+    "C19": {**W_LAWS, "u_add": 3, "v_add_uni": 2, "u_rm": 1, "mkv_u": 1},
     "C03": {**W_STRUCT, **{k: v // 2 + 1 for k, v in W_MEMB.items()}, **{k: v // 3 + 1 for k, v in W_LAWS.items()}},
 }
 LIMITS = {"V": 5, "U": 3, "E": 7, "M": 2, "W": 4}
